@@ -3,6 +3,26 @@ each property.  A unit may serve several properties; its obligations are
 generated once per check run."""
 
 UNITS = {
+    'C17': {
+        'functions': ['penman.transform:reify_edges', 'penman.transform:dereify_edges',
+                      'penman.transform:_dereify_agenda', 'penman.transform:reify_attributes',
+                      'penman.transform:indicate_branches', 'penman.layout:node_contexts',
+                      'penman.layout:appears_inverted', 'penman.layout:get_pushed_variable',
+                      'penman.surface:alignments', 'penman.surface:role_alignments',
+                      'penman.surface:_get_alignments',
+                      'penman.graph:Graph.variables', 'penman.graph:Graph.instances', 'penman.graph:Graph.edges',
+                      'penman.graph:Graph.attributes', 'penman.graph:Graph._filter_triples', 'penman.graph:Graph.top',
+                      'penman.transform:_reified_markers', 'penman.transform:_edge_markers',
+                      'penman.transform:_attr_markers', 'penman.model:Model.reify', 'penman.model:Model.dereify',
+                      'penman.tree:_map_vars'],
+        'lemmas': [],
+        'level': 'other',
+        'explanation': 'Proved (ownership obligations over the real AST): none of the listed functions mutates an '
+                       'object reachable from its arguments -- every in-place update (append/extend/insert/pop/sort/'
+                       'add/update/del/item and attribute stores) hits an object created inside the call.  Loops are '
+                       'cut by the trivial invariant for this purpose, so the verdict covers every iteration.  '
+                       'Determinism across hash seeds and processes is decided by the bounded stand-in.',
+    },
     'C10': {
         'functions': ['penman.tree:is_atomic', 'penman.tree:_map_vars'],
         'lemmas': [],
